@@ -302,6 +302,255 @@ pub fn stall(_seed: u64) -> usize {
             found += 1;
         }
     }
+    // a client that is over its rate limit and stays silent must not hold up a client with another address
+    let delayed = rt.block_on(async {
+        let port = std::net::TcpListener::bind("127.0.0.1:0").expect("bind").local_addr().unwrap().port();
+        let address = SocketAddr::from(([127, 0, 0, 1], port));
+        let stop = CancellationToken::new();
+        let token = stop.clone();
+        let server = tokio::spawn(async move {
+            let mut l = Listener::new(
+                Arc::new(FixedStatusAdapter::default()),
+                Arc::new(FixedDiscoveryAdapter::new(vec![])),
+                Arc::new(Vec::<MetaFilterAdapter>::new()),
+                Arc::new(AnyStrategyAdapter::new()),
+                Arc::new(FixedAuthenticationAdapter::default()),
+                Arc::new(FixedLocalizationAdapter::default()),
+            )
+            .with_rate_limiter(Some(RateLimiter::<IpAddr>::new(Duration::from_secs(3600), 1)))
+            .with_connection_timeout(Duration::from_secs(30));
+            let _ = l.listen(address, token).await.map_err(|e| e.to_string());
+        });
+        let connect_from = |ip: &'static str| async move {
+            let sock = tokio::net::TcpSocket::new_v4().ok()?;
+            sock.bind(format!("{ip}:0").parse().ok()?).ok()?;
+            sock.connect(address).await.ok()
+        };
+        let mut up = false;
+        for _ in 0..300 {
+            // the probe comes from a third address and spends that address's budget only
+            if let Some(mut s) = connect_from("127.0.0.9").await {
+                let _ = s.shutdown().await;
+                up = true;
+                break;
+            }
+            tokio::time::sleep(Duration::from_millis(10)).await;
+        }
+        if !up {
+            return false;
+        }
+        tokio::time::sleep(Duration::from_millis(50)).await;
+        // client A uses up its budget with a complete status exchange ..
+        let a1 = async {
+            let mut s = connect_from("127.0.0.2").await?;
+            s.write_packet(hand_in::HandshakePacket { protocol_version: 0, server_address: "".to_string(), server_port: 0, next_state: State::Status }).await.ok()?;
+            s.write_packet(status_in::StatusRequestPacket).await.ok()?;
+            let r: status_out::StatusResponsePacket = s.read_packet().await.ok()?;
+            Some(r)
+        };
+        let _ = tokio::time::timeout(Duration::from_secs(3), a1).await;
+        // .. and opens a second connection on which it stays silent (it is over its limit)
+        let silent = connect_from("127.0.0.2").await;
+        tokio::time::sleep(Duration::from_millis(150)).await;
+        let b = async {
+            let mut s = connect_from("127.0.0.3").await?;
+            s.write_packet(hand_in::HandshakePacket { protocol_version: 0, server_address: "".to_string(), server_port: 0, next_state: State::Status }).await.ok()?;
+            s.write_packet(status_in::StatusRequestPacket).await.ok()?;
+            let r: status_out::StatusResponsePacket = s.read_packet().await.ok()?;
+            Some(r)
+        };
+        let served = matches!(tokio::time::timeout(Duration::from_secs(2), b).await, Ok(Some(_)));
+        drop(silent);
+        stop.cancel();
+        let _ = tokio::time::timeout(Duration::from_secs(3), server).await;
+        !served
+    });
+    if delayed {
+        println!("REPRODUCED stall (rate limiter on, proxy protocol off): while a client that is over its limit held a second, silent connection open, a client with another address was not served within 2 s");
+        found += 1;
+    }
     eprintln!("stall: {found} reproduced");
+    found
+}
+
+/// C14 witness: the configured connection timeout bounds the lifetime of a connection, whatever the client does. Listener with a
+/// timeout of 1 s; a silent client, a client that stalls after its handshake and a client that trickles one byte every 300 ms must
+/// all find their socket closed by the server within 4 s.
+pub fn deadline(_seed: u64) -> usize {
+    let rt = tokio::runtime::Builder::new_multi_thread().worker_threads(2).enable_all().build().expect("rt");
+    let mut found = 0;
+    for mode in ["silent", "stalls-after-handshake", "trickles"] {
+        let open_after: Option<u64> = rt.block_on(async {
+            use tokio::io::AsyncReadExt;
+            let port = std::net::TcpListener::bind("127.0.0.1:0").expect("bind").local_addr().unwrap().port();
+            let address = SocketAddr::from(([127, 0, 0, 1], port));
+            let stop = CancellationToken::new();
+            let token = stop.clone();
+            let server = tokio::spawn(async move {
+                let mut l = Listener::new(
+                    Arc::new(FixedStatusAdapter::default()),
+                    Arc::new(FixedDiscoveryAdapter::new(vec![])),
+                    Arc::new(Vec::<MetaFilterAdapter>::new()),
+                    Arc::new(AnyStrategyAdapter::new()),
+                    Arc::new(FixedAuthenticationAdapter::default()),
+                    Arc::new(FixedLocalizationAdapter::default()),
+                )
+                .with_connection_timeout(Duration::from_secs(1));
+                let _ = l.listen(address, token).await.map_err(|e| e.to_string());
+            });
+            let mut up = false;
+            for _ in 0..300 {
+                if let Ok(mut s) = TcpStream::connect(address).await {
+                    let _ = s.shutdown().await;
+                    up = true;
+                    break;
+                }
+                tokio::time::sleep(Duration::from_millis(10)).await;
+            }
+            if !up {
+                return None;
+            }
+            let Ok(stream) = TcpStream::connect(address).await else { return None };
+            let (mut rd, mut wr) = stream.into_split();
+            let started = std::time::Instant::now();
+            let writer = tokio::spawn(async move {
+                match mode {
+                    "stalls-after-handshake" => {
+                        let _ = wr.write_packet(hand_in::HandshakePacket { protocol_version: 0, server_address: "".to_string(), server_port: 0, next_state: State::Status }).await;
+                        tokio::time::sleep(Duration::from_secs(6)).await;
+                    }
+                    "trickles" => {
+                        // a 40 byte frame, one byte at a time
+                        let mut frame = vec![40u8];
+                        frame.extend(std::iter::repeat(0u8).take(40));
+                        for b in frame {
+                            if wr.write_all(&[b]).await.is_err() {
+                                break;
+                            }
+                            tokio::time::sleep(Duration::from_millis(300)).await;
+                        }
+                    }
+                    _ => tokio::time::sleep(Duration::from_secs(6)).await,
+                }
+                drop(wr);
+            });
+            // the server closing its side shows as end of file (or an error) on the read half
+            let mut buf = [0u8; 256];
+            let closed = tokio::time::timeout(Duration::from_secs(4), async {
+                loop {
+                    match rd.read(&mut buf).await {
+                        Ok(0) | Err(_) => break,
+                        Ok(_) => {}
+                    }
+                }
+            })
+            .await
+            .is_ok();
+            writer.abort();
+            stop.cancel();
+            let _ = tokio::time::timeout(Duration::from_secs(3), server).await;
+            if closed { None } else { Some(started.elapsed().as_millis() as u64) }
+        });
+        if let Some(ms) = open_after {
+            println!("REPRODUCED deadline client {mode}: connection timeout 1 s, but the server still held the connection open after {ms} ms");
+            found += 1;
+        }
+    }
+    eprintln!("deadline: {found} reproduced");
+    found
+}
+
+/// C17 witness, second half: connections that are in progress when shutdown is requested run to completion, and `listen` returns
+/// only after they have finished. Two variants: (a) no PROXY protocol, the client has sent its handshake but not yet its status
+/// request; (b) PROXY protocol on, the client has sent the first half of its PROXY header.
+pub fn drain(_seed: u64) -> usize {
+    let rt = tokio::runtime::Builder::new_multi_thread().worker_threads(2).enable_all().build().expect("rt");
+    let mut found = 0;
+    for proxy in [false, true] {
+        let problem: Option<String> = rt.block_on(async {
+            let port = std::net::TcpListener::bind("127.0.0.1:0").expect("bind").local_addr().unwrap().port();
+            let address = SocketAddr::from(([127, 0, 0, 1], port));
+            let stop = CancellationToken::new();
+            let token = stop.clone();
+            let server = tokio::spawn(async move {
+                let mut l = Listener::new(
+                    Arc::new(FixedStatusAdapter::default()),
+                    Arc::new(FixedDiscoveryAdapter::new(vec![])),
+                    Arc::new(Vec::<MetaFilterAdapter>::new()),
+                    Arc::new(AnyStrategyAdapter::new()),
+                    Arc::new(FixedAuthenticationAdapter::default()),
+                    Arc::new(FixedLocalizationAdapter::default()),
+                )
+                .with_proxy_protocol(if proxy { Some(ParseConfig { include_tlvs: false, allow_v1: true, allow_v2: true }) } else { None })
+                .with_connection_timeout(Duration::from_secs(10));
+                let _ = l.listen(address, token).await.map_err(|e| e.to_string());
+            });
+            let mut up = false;
+            for _ in 0..300 {
+                if let Ok(mut s) = TcpStream::connect(address).await {
+                    let _ = s.shutdown().await;
+                    up = true;
+                    break;
+                }
+                tokio::time::sleep(Duration::from_millis(10)).await;
+            }
+            if !up {
+                return None;
+            }
+            tokio::time::sleep(Duration::from_millis(100)).await;
+            let Ok(mut stream) = TcpStream::connect(address).await else { return None };
+            let head = header(&Conn::V1("203.0.113.7:50000"));
+            // the part of the exchange that happens before the shutdown request
+            let first: Result<(), std::io::Error> = async {
+                if proxy {
+                    stream.write_all(&head[..head.len() / 2]).await?;
+                } else {
+                    stream
+                        .write_packet(hand_in::HandshakePacket { protocol_version: 0, server_address: "".to_string(), server_port: 0, next_state: State::Status })
+                        .await
+                        .map_err(|e| std::io::Error::other(e.to_string()))?;
+                }
+                stream.flush().await
+            }
+            .await;
+            if first.is_err() {
+                return Some("the client could not start its exchange".into());
+            }
+            tokio::time::sleep(Duration::from_millis(150)).await;
+            stop.cancel();
+            tokio::time::sleep(Duration::from_millis(300)).await;
+            if server.is_finished() {
+                return Some("listen() returned although a connection accepted before the shutdown request was still in progress".into());
+            }
+            // the rest of the exchange
+            let rest = async {
+                if proxy {
+                    stream.write_all(&head[head.len() / 2..]).await.ok()?;
+                    stream
+                        .write_packet(hand_in::HandshakePacket { protocol_version: 0, server_address: "".to_string(), server_port: 0, next_state: State::Status })
+                        .await
+                        .ok()?;
+                }
+                stream.write_packet(status_in::StatusRequestPacket).await.ok()?;
+                let response: status_out::StatusResponsePacket = stream.read_packet().await.ok()?;
+                Some(response)
+            };
+            let served = matches!(tokio::time::timeout(Duration::from_secs(5), rest).await, Ok(Some(_)));
+            drop(stream);
+            let returned = tokio::time::timeout(Duration::from_secs(15), server).await.is_ok();
+            if !served {
+                return Some("a connection that was in progress when shutdown was requested was not served to completion".into());
+            }
+            if !returned {
+                return Some("listen() did not return after the last connection in progress had finished".into());
+            }
+            None
+        });
+        if let Some(p) = problem {
+            println!("REPRODUCED drain (proxy protocol {}): {p}", if proxy { "on" } else { "off" });
+            found += 1;
+        }
+    }
+    eprintln!("drain: {found} reproduced");
     found
 }
